@@ -2,5 +2,6 @@ SPECIFICATION Spec
 CONSTANT Mode = "faithful"
 CONSTANT K = 4
 CONSTANT KW = 3
+CONSTANT KB = 2
 CONSTANT EmitScn = TRUE
 CHECK_DEADLOCK FALSE
